@@ -100,6 +100,42 @@ check(
     "DESIGN.md 5 (C16)",
 )
 
+check(
+    "C06",
+    "TokenStream.tla pushdown monitor (TLC-checked equivalent to the tree invariant on all small forests); token streams of real parse results validated by TLC (TokenTrace.tla); API-consistency clauses asserted on the same objects",
+    "Trace validation: tokens() of every successful parse (TLC-enumerated families x four modes x all start positions; bundled JSON/TOML/SQL/HTTP/JSONPath/calculator/lists/INI/CSV and suite grammars on corpus and "
+    "mutated inputs) is validated by TLC against the TokenStream monitor, which TLC separately shows accepts Tokens(f) exactly when f satisfies the tree invariant; text/names/tags/flatten/single-root/dump clauses are "
+    "asserted by the harness on the same Pairs objects.",
+    REPLAY_NOTE,
+    "DESIGN.md 2.8, 5 (C06)",
+)
+check(
+    "C13",
+    "Failing cases of TLC-enumerated families and bundled grammars in four modes; bounds, names and rendering asserted; shown line:column and source line validated by TLC against LineCol.tla (ErrTrace.tla)",
+    "Every failing parse of the enumerated families (including a multi-line family: failure at offset 0, at the end, on an empty line, after a trailing line break, inside predicates) and of the bundled grammars on "
+    "mutated, multi-line and non-ASCII inputs is checked for start <= p <= len or the sentinel, known rule names, and rendering; each distinct rendered (input, position, line:col, source line) is validated by TLC "
+    "against the LineCol specification.",
+    REPLAY_NOTE,
+    "DESIGN.md 5 (C13)",
+)
+check(
+    "C14",
+    "LineCol.tla (TLC: bijection offsets <-> line/column, inverse, step characterisation) with the table for every text to the bound replayed into Position/Span/Pair; long non-ASCII texts validated as traces by TLC (LineColTrace.tla)",
+    "Exhaustive within the bound: TLC enumerates all texts over {a, b, newline} to length 6 (quick) / 8 (thorough), checks that line/column and offsets determine each other, and emits LineCol/LineStart/LineEnd for every "
+    "offset; the harness compares line_col(), line_of(), Span.start_pos/end_pos/split/lines/str and Pair.line_col()/span() on all offsets and spans; seeded long and non-ASCII texts are logged offset by offset and "
+    "validated by TLC against the line/column counter machine.",
+    "Trusted: TLC, CPython. Texts use \\n as the only line break. Span.lines(): inclusive or exclusive end offset and omission of the empty line after a final break are all accepted (no statement pins them).",
+    "DESIGN.md 2.8, 5 (C14)",
+)
+check(
+    "C18",
+    "OpExpr.tla: declarative denoted tree (TLC checks uniqueness) and the Pratt loop transcribed (TLC checks it builds the denoted tree); every (table, stream, tree) instance replayed into a real PrattParser",
+    "Exhaustive within the bound: all operator tables (1-2 infix operators with each associativity, 0-1 prefix, 0-1 postfix, precedences 1..4) x all well-formed streams to 6 (quick) / 8 (thorough) tokens; TLC checks that "
+    "exactly one tree without precedence inversion exists and that the transcribed parse_expr builds it; the real PrattParser, fed synthetic Pairs, must build the same tree and consume the stream.",
+    "Trusted: TLC, CPython. Tables are well-formed (a precedence level belongs to one fixity; equal-precedence infix operators share associativity).",
+    "DESIGN.md 2.9, 5 (C18)",
+)
+
 NOT_YET = {
 }
 
